@@ -567,6 +567,11 @@ def run(chk):
     objs.append(("model", [(p, rand_param(rng, SHAPES[:4], 1)) for p in
                            [(b"a\x00",), (b"a",), (b"\x00", b"\x00\x00"), (b"\x00", b"w"), (b"x\x00y", b"", b"\x01")]]))
 
+    # names that contain the separator of the printed path: different name lists that read the same when joined with '.'
+    objs.append(("model", [(p, rand_param(rng, [sh], 1)) for p, sh in
+                           [((b"a.b",), [2]), ((b"a", b"b"), [3]), ((b"", b"x"), [1, 2]), ((b".x",), [4]),
+                            ((b"a", b"c.d", b"e"), [2, 2]), ((b"a", b"c", b"d.e"), [5])]]))
+
     def save_line(kind, o, ws):
         if kind == "param":
             return "save param %d %s" % (ws, o.tok())
@@ -660,6 +665,8 @@ def run(chk):
         for name, why in broken.items():
             chk.report("obligation:" + name, "theorem %s no longer checks: %s" % (name, why),
                        {"theorem": name, "reason": why, "log": (chk.oblig or {}).get("log_tail", "")[-1500:]}, found_input=False)
+    from props import C20 as _c20
+    _c20.run_eq_leg(chk, lambda name: "Save" in name or "Load" in name)    # save / load through the C API
     chk.trusted += [
         "modelled, not verified: msgpack::Writer/Reader (Model/Msgpack.lean) and Parameter/Model/Optimizer save+load (Model/Files.lean) are "
         "hand-written models tied to the code by the correspondence runs of this check; the Shape constructor is the C09 model (Model/Shape.lean)",
